@@ -451,7 +451,9 @@ class Interp:
         if isinstance(test, ast.Name) and test.id in env and env[test.id].k == "bool" and env[test.id].cval is not None:
             return bool(env[test.id].cval)
         if ad is not None:
-            if t in ("input_is_dask", "chunky") or t.startswith("is_input_dask_nested("):
+            from .proto import is_switch
+
+            if is_switch(test, self.P, self.f):
                 return ad
             if t.startswith("isinstance(") and any(x in t for x in ("da.Array", "dask.array.Array", "dask.array.core.Array", "dask.bag.Bag", "Delayed")):
                 return ad
